@@ -5,7 +5,7 @@ cd /verif
 git -C /repo status --short | grep -v '^??' && { echo "/repo dirty"; exit 2; }
 git -C /repo apply $PATCH || exit 2
 for P in "$@"; do
-  ./check $P --tier quick > /tmp/seed/run.$P.out 2>&1; RC=$?
-  echo "$P exit=$RC $(grep -c '^VIOLATION' /tmp/seed/run.$P.out) violation line(s): $(grep '^VIOLATION' /tmp/seed/run.$P.out | head -2 | tr '\n' ' ')"
+  ./check $P --tier quick > /tmp/seedrun.$P.out 2>&1; RC=$?
+  echo "$P exit=$RC $(grep -c '^VIOLATION' /tmp/seedrun.$P.out) violation line(s): $(grep '^VIOLATION' /tmp/seedrun.$P.out | head -2 | tr '\n' ' ')"
 done
 git -C /repo checkout -q -- .
